@@ -97,7 +97,7 @@ func (e *Engine) Apply(op *Op) error {
 			return err
 		}
 		e.noteTarget(n)
-		ti := TI{N: op.P % 48, Comp: n.TI.Comp}
+		ti := TI{N: e.typeNum(op.P, 8), Comp: n.TI.Comp}
 		var err error
 		if n.IsMap {
 			err = n.HM.SetType(ti)
